@@ -1,6 +1,8 @@
 package main
 
 import (
+	"syscall"
+	"os/signal"
 	"os/exec"
 	"crypto/sha1"
 	"encoding/json"
@@ -62,6 +64,15 @@ func main() {
 		fs.Parse(os.Args[3:])
 	}
 	seed, _ := strconv.Atoi(getenvDefault("VERIF_SEED", "0"))
+	// SIGTERM/SIGINT/SIGHUP (e.g. from `timeout`): do not leave solver processes behind
+	sigc := make(chan os.Signal, 1)
+	signal.Notify(sigc, syscall.SIGTERM, syscall.SIGINT, syscall.SIGHUP)
+	go func() {
+		<-sigc
+		killAllChildren()
+		fmt.Println("BROKEN-CHECK: interrupted by a signal (no verdict)")
+		os.Exit(2)
+	}()
 	debug.SetGCPercent(400)
 	if pf := os.Getenv("GOSMT_PROF"); pf != "" {
 		f, _ := os.Create(pf)
@@ -109,6 +120,7 @@ func check(prop, tier, only, repoDir, verifDir string, workers, par, seed int, d
 	go func() {
 		time.Sleep(limit)
 		fmt.Printf("BROKEN-CHECK: property=%s tier=%s exceeded its wall limit of %v (no verdict)\n", prop, tier, limit)
+		killAllChildren()
 		os.Exit(2)
 	}()
 	ws, err := setupWorkspace(repoDir, verifDir, prop)
